@@ -701,6 +701,13 @@ func (cs *Contracts) parseFile(path, pkg string) error {
 				return fmt.Errorf("%s:%d: expected 'cellfresh <func>: after \"callee\" argument <i>'", path, lineNo)
 			}
 			cs.Fields = append(cs.Fields, &FieldDecl{Type: strings.TrimSpace(cm[1]), Field: cm[2], Pkg: pkg, Kind: "cellfresh", Arg: cm[3], Props: append([]string(nil), props...)})
+		case "globals":
+			// globals immutable [except g1 g2 ...]   package-level variables of this package are only
+			// written by the package initialiser (no mutable global state)
+			if err := flush(); err != nil {
+				return err
+			}
+			cs.Fields = append(cs.Fields, &FieldDecl{Type: "*", Field: "*", Pkg: pkg, Kind: "globals", Arg: strings.TrimSpace(rest), Props: append([]string(nil), props...)})
 		case "methods":
 			// methods <T>: M1 M2 ...   the method set of *T is exactly the listed methods (all under contract)
 			if err := flush(); err != nil {
